@@ -83,6 +83,9 @@ pub struct TrainSpec {
     /// then be invalidated)
     #[serde(default)]
     pub export_before_user: bool,
+    /// write_model + read_model before the user lexicon is read (the train -> dictgen workflow)
+    #[serde(default)]
+    pub reload_before_user: bool,
     pub max_iter: u8,
     /// 0 => 0.001, 1 => 0.01, 2 => 1.0 (0.0 is rejected by the optimiser: training does not succeed)
     pub lambda: u8,
@@ -213,7 +216,7 @@ pub fn bigram_side(j: usize, side: char) -> BoxedStrategy<String> {
         .boxed()
 }
 
-const PCELLS: &[&str] = &["*", "N", "V", "x", "(N|V)", "(x|y|k)", "A"];
+const PCELLS: &[&str] = &["*", "N", "V", "x", "(N|V)", "(x|y|k)", "A", "(N|x)", "(V|A|N)", "(x|N)"];
 const RCELLS: &[&str] = &["$1", "$2", "$3", "$4", "$6", "Z", "N", "x", "*"];
 
 pub fn rule() -> BoxedStrategy<Rule> {
@@ -262,9 +265,9 @@ pub fn train_spec(max_templates: usize, with_user: bool) -> BoxedStrategy<TrainS
         } else {
             Just(None).boxed()
         },
-        (1u8..=6, 0u8..3, any::<bool>()),
+        (1u8..=6, 0u8..3, any::<bool>(), any::<bool>()),
     )
-        .prop_map(|(lexraw, (ncat, catraw), unkraw, (uni, bi), (ru, rl, rr), corpraw, userraw, (max_iter, lambda, export_before_user))| {
+        .prop_map(|(lexraw, (ncat, catraw), unkraw, (uni, bi), (ru, rl, rr), corpraw, userraw, (max_iter, lambda, export_before_user, reload_before_user))| {
             let lex: Vec<SeedRow> = lexraw.into_iter().map(|(surface, cells)| SeedRow { surface, cells }).collect();
             let mut cats = vec![];
             for (i, (invoke, group, length, chs)) in catraw.iter().take(ncat).enumerate() {
@@ -323,6 +326,7 @@ pub fn train_spec(max_templates: usize, with_user: bool) -> BoxedStrategy<TrainS
                 corpus,
                 user,
                 export_before_user,
+                reload_before_user,
                 max_iter,
                 lambda,
             }
